@@ -9,6 +9,7 @@ package irfix
 import (
 	"errors"
 	"sync/atomic"
+	"time"
 
 	"github.com/nspcc-dev/neo-go/pkg/crypto/keys"
 	"github.com/nspcc-dev/neo-go/pkg/util"
@@ -71,7 +72,13 @@ func (s *State) Set(idx int, failed bool) {
 }
 
 // Epoch is a trivial EpochState.
-type Epoch struct{ V atomic.Uint64 }
+type Epoch struct {
+	V   atomic.Uint64
+	Dur atomic.Uint64
+}
+
+func (e *Epoch) SetEpochDuration(v uint64)    { e.Dur.Store(v) }
+func (e *Epoch) EpochDuration() time.Duration { return time.Duration(e.Dur.Load()) * time.Second }
 
 func (e *Epoch) EpochCounter() uint64     { return e.V.Load() }
 func (e *Epoch) SetEpochCounter(v uint64) { e.V.Store(v) }
